@@ -186,6 +186,18 @@ def step(draw):
 @st.composite
 def group(draw):
     """One step, or the scenario 'load S; modify the program it returned; load S again'."""
+    if draw(st.integers(0, 7)) == 0:
+        # the same script once as a tdm program and once with another program type (p-arrays by name vs by value)
+        sc = draw(S.script(_cfg(tdm=True)))
+        for it in sc.items:
+            pass
+        t1 = render.render(sc)
+        sc2 = A.Script(sc.name, sc.version, sc.target, A.Meta("other", sc.ptype.args), [], sc.items)
+        t2 = render.render(sc2)
+        pair = [{"kind": "loads", "text": t1, "role": "valid-tdm"}, {"kind": "loads", "text": t2, "role": "valid"}]
+        if draw(st.booleans()):
+            pair.reverse()
+        return pair
     s1 = draw(step())
     if s1["kind"] != "mutate" and draw(st.integers(0, 3)) == 0:
         mut = {"kind": "mutate", "target": -1, "how": draw(st.sampled_from(list(range(9)) + [9, 10] * 3)), "role": "mutate"}
